@@ -405,7 +405,7 @@ func sites(x interface{}) []site {
 	return out
 }
 
-const minSite = 3 // a tagged encoding shorter than this is too short to be located reliably
+const minSite = 4 // a tagged encoding shorter than this is too short to be located reliably
 
 type inst struct {
 	obj interface{}
@@ -1134,13 +1134,24 @@ func child(work string, from int, hostile bool, thorough bool) {
 					var o string
 					var cons int
 					var obj interface{}
-					a := allocOf(func() {
+					first := func() {
 						if core.Guard(func() { obj, cons = decode(it, hb) }) != "" {
 							o, cons, obj = "failed", 0, nil
 							return
 						}
 						o = "ok"
-					})
+					}
+					// the allocation counter that needs no stop-the-world picks the decodes worth measuring
+					// exactly (it shows large allocations at once and small ones a little late)
+					a0 := cheapAlloc()
+					first()
+					a := int(cheapAlloc() - a0)
+					switch {
+					case a < 0 || a >= allocCap:
+						a = allocCap
+					case a > screen:
+						a = allocOf(first)
+					}
 					// on the object the first stage returned: every accessor once
 					var accs, big []string
 					var failed map[string]bool
@@ -1338,8 +1349,15 @@ func Run(c *core.Ctx) error {
 		if r.Full != "ok" {
 			fullFailed++
 		}
-		t.Emit(core.Ev{"ev": "Obj", "via": "buffer", "len": n, "full": r.Full, "consumed": r.Consumed, "okcuts": r.OkCuts, "overrun": r.Overrun})
+		via := "buffer"
+		if it.Kind == "net" {
+			via = "conn/eof/0"
+		}
+		t.Emit(core.Ev{"ev": "Obj", "via": via, "len": n, "full": r.Full, "consumed": r.Consumed, "okcuts": r.OkCuts, "overrun": r.Overrun})
 		for _, nr := range r.Net {
+			if nr.Mode == "eof" && nr.Chunk == 0 {
+				continue // the history's first Obj event
+			}
 			t.Emit(core.Ev{"ev": "Obj", "via": fmt.Sprintf("conn/%s/%d", nr.Mode, nr.Chunk), "len": n, "full": nr.Full, "consumed": nr.Consumed,
 				"okcuts": nr.OkCuts, "overrun": nr.Overrun})
 		}
